@@ -591,7 +591,9 @@ pub fn run_case<W: World>(case: &BigCase, stats: &mut Stats) -> Result<BigRunInf
                 // available capacity = the vector's own capacity (DESIGN §7.2)
                 cap0 < CAP || need + slack > CAP
             } else {
-                false
+                // beyond the 62-limb design capacity the statement only demands
+                // "exact or reported failure"; within it the heap back-end never fails
+                need + slack > CAP
             };
             if !legit {
                 return Err(viol(
